@@ -178,6 +178,7 @@ def main():
                                       f"frequencies {np.asarray(want_real).tolist()}", rep)
             run.case((cfg, ci) if v > 0 and len(set(w)) > 1 else None,
                      sample=dict(means=mu, stds=sd, weights=w, z=z, exact_mean=c["mean"], exact_variance=c["var"]) if len(run.samples) < 4 and v > 0 and len(set(w)) > 1 else None)
+    random_tight_layouts(run, rng, HvsrSpatial)
     # reproducibility with real generators, and unchanged when all weights are multiplied by a constant
     for t in range(10 if run.quick else 100):
         mus = rng.uniform(2.5, 4, 5)       # far enough from zero: realisations stay positive before a logarithm
@@ -199,6 +200,59 @@ def main():
              "through spatial_weights and bounded_voronoi, also permuted / translated / scaled; every scripted Monte-Carlo case of "
              "spec/McStats.tla under 2 (+2 mixed) distribution pairs; seeded reproducibility; non-trivial = unequal weights",
         exhaustive=run.quick)
+
+
+def clip_halfplane(poly, a, b_):
+    """Sutherland-Hodgman: the part of the convex polygon `poly` (k x 2) with a . x <= b_"""
+    out = []
+    k = len(poly)
+    for i in range(k):
+        p, q = poly[i], poly[(i + 1) % k]
+        dp, dq = a @ p - b_, a @ q - b_
+        if dp <= 0:
+            out.append(p)
+        if (dp < 0 < dq) or (dq < 0 < dp):
+            t = dp / (dp - dq)
+            out.append(p + t * (q - p))
+    return np.array(out) if out else np.zeros((0, 2))
+
+
+def nearest_sensor_fractions(sensors, hull):
+    """area of {x in hull : sensor i is the nearest sensor} / area of hull, by clipping the hull with every bisector"""
+    tot = polygon_area(hull)
+    out = []
+    for i, si in enumerate(sensors):
+        cell = hull.copy()
+        for j, sj in enumerate(sensors):
+            if j != i and len(cell):
+                cell = clip_halfplane(cell, 2.0 * (sj - si), float(sj @ sj - si @ si))          # |x - si|^2 <= |x - sj|^2
+        out.append(polygon_area(cell) / tot if len(cell) >= 3 else 0.0)
+    return np.array(out)
+
+
+def random_tight_layouts(run, rng, HvsrSpatial):
+    """The definition itself on layouts the exact model is too small for: 7-10 sensors in general position, a boundary that hugs them
+    (their convex hull blown up by 5-25 %, so that several interior cells reach over it with a single corner)."""
+    from scipy.spatial import ConvexHull
+    for t in range(40 if run.quick else 400):
+        ns = int(rng.randint(7, 11))
+        sens = rng.uniform(0.0, 10.0, size=(ns, 2))
+        hull_pts = sens[ConvexHull(sens).vertices]
+        c0 = hull_pts.mean(axis=0)
+        bnd = c0 + (1.05 + 0.2 * rng.rand()) * (hull_pts - c0)
+        want = nearest_sensor_fractions(sens, bnd)
+        rep = dict(kind="voronoi-random", sensors=sens.tolist(), boundary=bnd.tolist())
+        try:
+            with warnings.catch_warnings():
+                warnings.simplefilter("ignore")
+                gw, gi = HvsrSpatial(sens).spatial_weights(bnd)
+        except Exception as e:
+            run.violation("voronoi:raised", f"random layout {t}: {type(e).__name__}: {e}", rep)
+            continue
+        if sorted(gi) != list(range(ns)) or not np.allclose(np.asarray(gw)[np.argsort(gi)], want, rtol=1e-7, atol=1e-9):
+            run.violation("voronoi:weights:random-tight-boundary", f"random layout {t} ({ns} sensors, boundary = hull x {np.linalg.norm(bnd[0]-c0)/np.linalg.norm(hull_pts[0]-c0):.2f}): "
+                          f"weights {np.asarray(gw).tolist()} for indices {list(gi)}, nearest-sensor area fractions {want.tolist()}", rep)
+        run.case(("random-tight", t))
 
 
 def polygon_area(v):
